@@ -45,6 +45,23 @@ Theorem C11_select_copies_current : forall d t v a b,
 Proof. exact select_copies_current. Qed.
 Print Assumptions C11_select_copies_current.
 
+Theorem C11_select_all_objects : forall d t v,
+  sdb_wf d -> sd_maps d t <> [] ->
+  snd (sdb_select_type d t v None) = 0 ->
+  let d' := fst (sdb_select_type d t v None) in
+  exists a b, sd_queue d' = sd_queue d ++ [mkQ t a b v]
+              /\ qitem_items (sd_maps d') (mkQ t a b v)
+                 = map (fun kp => point_item t v (freeze kp)) (sd_maps d t).
+Proof. exact select_all_objects. Qed.
+Print Assumptions C11_select_all_objects.
+
+Theorem C11_select_class0_all_points : forall d,
+  sdb_wf d -> sd_queue d = [] -> 8 <= sd_cap d ->
+  snd (sdb_select d SelClass0) = 0
+  /\ sdb_pending (fst (sdb_select d SelClass0)) = concat (map (class0_items d) all_ptypes).
+Proof. exact select_class0_all_points. Qed.
+Print Assumptions C11_select_class0_all_points.
+
 Theorem C11_write_splits_pending : forall d budget,
   sdb_wf d ->
   let d' := fst (sdb_write_hdrs d budget) in
